@@ -39,8 +39,8 @@ _base_metrics.py (`Generated/BaseMetricsSrc.lean`).
 
 TIE (review): `named_bases_are_lifted`, `eodds_worst_is_lifted`, `subOne_is_lifted` identify the hand-written named-metric
 bases / worst-case builtins / `ratio_sub_one` of `Model/Weights.lean` with the text lifted by `fairness_named.py` /
-`aggregate.py`.  Still hand-written (a lifter could provide them — reported): `minL`/`maxL`/`rabs` composition of
-`difference` and `ratio` in `Weights.aggregate` (min/max choice: `AggregateSpec.diffAgg` … exist but are not used here).
+`aggregate.py`.  The min / max choice of `difference` and `ratio` in `Weights.aggregate` is read from `AggregateSpec.diffAgg` etc.
+(`src_aggregate_composition` is the closed form on the pinned source); `minL`/`maxL`/`rabs` themselves are hand-written.
 
 TOTALISATION.  Every clause is an equation between the SAME function on two inputs, so a default could only make both
 sides equal "by accident" where fairlearn gives two different non-numbers.  Checked: with PosMult and a non-empty input
@@ -576,5 +576,20 @@ example : (0 : Rat) < 3/4 ∧
 example : BaseMetricsSrc.selection_rate [1, 0] [1, 0] 1 none = .ok (1/2) ∧
     BaseMetricsSrc.selection_rate [1, 0] [1, 0] 1 (some [3, 1]) = .ok (3/4) ∧
     BaseMetricsSrc.mean_prediction [] [1, 0] none = .ok (1/2) := by decide +kernel
+
+/-! ### the aggregate composition is read from the lifted `AggregateSpec` (bridge) -/
+
+/-- `Weights.aggregate` is defined over `Generated/AggregateSpec.lean` (which extreme `difference` / `ratio` take,
+    lifted by `aggregate.py` from `DisaggregatedResult.difference` / `.ratio`); on the pinned source it is the closed
+    form all theorems of this file were stated for — a source edit of one of the min / max choices changes the generated
+    definitions and breaks this equation (and the driver op `w.frame` follows the new text) -/
+theorem src_aggregate_composition (ks : List Int) (vals : List Rat) (ov : Rat) :
+    Weights.aggregate ks vals ov =
+      { keys := ks, byGroup := vals, overall := ov,
+        gmin := Weights.minL vals, gmax := Weights.maxL vals,
+        diffBetween := Weights.maxL (vals.map (fun v => Weights.rabs (v - Weights.minL vals))),
+        diffOverall := Weights.maxL (vals.map (fun v => Weights.rabs (v - ov))),
+        ratioBetween := Weights.xdiv (Weights.minL vals) (Weights.maxL vals),
+        ratioOverall := Weights.xminSkip (vals.map (fun v => Weights.subOne (Weights.xdiv v ov))) } := rfl
 
 end C11
